@@ -543,6 +543,8 @@ def run(chk, repo, tier):
                           'dimension vectors as the evaluator assumes' % m)
     fu = repo.methods(QTY, 'FundamentalUnits')
     for m, ref in c11.FU.items():
+        if m not in fu:
+            continue        # its absence is C11's business (R11.4)
         refcmp.check(chk, 'R10.6', QTY, fu[m], ref,
                      key='FundamentalUnits.' + m,
                      what='FundamentalUnits.%s: exponent arithmetic' % m)
